@@ -417,6 +417,35 @@ impl DynSub for ESub {
     }
 }
 
+/// Fixed list of (large) cases, evaluated in parallel with the property's own oracle; a failing case is the replay file.
+pub struct LSub<C> {
+    pub name: &'static str,
+    pub cases: fn(Tier) -> Vec<C>,
+    pub eval: fn(&C) -> Outcome,
+    pub note: &'static str,
+}
+impl<C> DynSub for LSub<C>
+where
+    C: Serialize + serde::de::DeserializeOwned + Debug + Clone + Send + Sync + Hash + 'static,
+{
+    fn name(&self) -> &'static str {
+        self.name
+    }
+    fn run(&self, ctx: &Ctx) -> SubReport {
+        let all = (self.cases)(ctx.tier);
+        let mk = |shard: usize, shards: usize| all.clone().into_iter().enumerate().filter(move |(i, _)| i % shards == shard).map(|(_, c)| c);
+        let ev = self.eval;
+        let mut r = run_enumerated(ctx, self.name, &mk, &move |c: &C| ev(c));
+        r.exhaustive = false;
+        r.notes.push(self.note.to_string());
+        r
+    }
+    fn replay(&self, case: &Value) -> Result<Outcome, String> {
+        let c: C = serde_json::from_value(case.clone()).map_err(|e| e.to_string())?;
+        Ok((self.eval)(&c))
+    }
+}
+
 pub fn boxed<S: Strategy + 'static>(s: S) -> BoxedStrategy<S::Value> {
     s.boxed()
 }
